@@ -2,6 +2,7 @@
 symlink; restoring recreates the same link."""
 from __future__ import annotations
 
+import copy
 import posixpath
 
 from gen import base as G
@@ -20,7 +21,7 @@ RULE = ('trash-put of one symlink per case (to file, dir, nothing, another link,
         'non-trivial = the link resolves to something (or has trailing slashes); distinct = (link kind, target volume relation, trailing '
         'slashes, reached through link, outcome)')
 ASSUMPTIONS = ["'link-to-file/' is ENOTDIR for the kernel: failing is legitimate there, following is not"]
-PROBES = ['another-link-took-the-place', 'member-through-the-link-then-the-link', 'cross-volume-fallback', 'link-trashed', 'trailing-slash-on-dirlink-trashed', 'legitimate-enotdir-refusal', 'target-other-volume', 'reached-through-link',
+PROBES = ['compared-with-a-plain-file-at-the-same-place', 'another-link-took-the-place', 'member-through-the-link-then-the-link', 'cross-volume-fallback', 'link-trashed', 'trailing-slash-on-dirlink-trashed', 'legitimate-enotdir-refusal', 'target-other-volume', 'reached-through-link',
           'restored-identical-link', 'dangling', 'chain', 'selfloop', 'with-force', 'with-interactive-yes', 'link-given-after-its-own-target']
 TECHNIQUE = 'deterministic simulation of put and restore on generated symlink configurations; snapshot oracle on the link target, lstat/readlink of the payload, recorded location'
 LEVEL_TEXT = 'seeded exploration of link kinds x spellings x volumes; the target subtree must be snapshot-identical after every command'
@@ -334,6 +335,26 @@ def check(sim, case, st):
         ch = [k for k in o0 if k in o2 and not Wd.same_entry(o0[k], o2[k])] + [k for k in o0 if k not in o2]
         if ch:
             res.append(('C18/restore-touched-target/%s' % sig, 'restore changed %r' % ch[:5]))
+    if oc.state == 'trashed' and not res:
+        # the link is an entry like any other: it goes to the trash directory that a plain file of the same name at the same
+        # place goes to - where its target lies (another volume, a volume's top directory, nowhere) plays no part
+        twin = copy.deepcopy(case)
+        hit = [st_ for st_ in twin['world']['steps'] if st_[0] == 'l' and st_[1] == loc]
+        if len(hit) == 1:
+            hit[0][:] = ['f', loc, 'a plain file where the link was', 0o644]
+            tput = dict(put, argv=[a if a != arg else arg.rstrip('/') for a in put['argv']])
+            sim.setup(twin)
+            t0 = sim.snap()
+            tnm = OP.name_entry(sim.root, tput.get('cwd', '/'), arg.rstrip('/'), t0, mounts)
+            if tnm.kind == 'entry' and tnm.loc == loc:
+                tr = sim.run(tput)
+                st.sims += 1
+                st.ops += tr.nops
+                touts, _p = OP.judge(sim.root, t0, sim.snap(), [tnm], mounts)
+                st.probes['compared-with-a-plain-file-at-the-same-place'] += 1
+                if touts[0].state == 'trashed' and touts[0].tdir != oc.tdir:
+                    bad('trash-dir-depends-on-the-target', 'the link %r -> %r was trashed into %r, a plain file of the same name at the same place goes to %r'
+                        % (loc, target, oc.tdir, touts[0].tdir))
     seen, out = set(), []
     for s, m in res:
         if s not in seen:
